@@ -62,6 +62,12 @@
        HashFileDB.add, verify=True: afterwards every oid is re-hashed; a mismatching object is
        removed and (fix dd1aa82) routed to on_error.
 
+   [t_dst] is the destination as the status phase vouches for it: [has] = "there is an object
+   under this id" for a base-class store; a LocalHashFileDB answers oids_exist through check(),
+   which re-hashes a copy that is not write-protected and REMOVES it when it does not hash to its
+   id (C07's mechanism) - such a copy counts as absent, and the harness passes the destination
+   without it (rule computed independently: local class, mode <> 0o444, md5 <> id).
+
    Single writer: only the events of this transfer act on the destination.  (Since 5bda9b0
    _add's error callback does not count a PermissionError as a failure when the destination
    object is there and write-protected - an object a concurrent writer added meanwhile; with a
